@@ -293,15 +293,34 @@ def _fraction(ctx, mir) -> None:
                f"digits and right-padded with zeros", m.loc(fn))
     if mir is None:
         return
-    f = mir.fn("parse_time")
-    names = f.names()
+    f0 = mir.fn("parse_time")
+    # the fraction may be read by a helper of the parser: the loops are looked for in parse_time and in the crate-local functions
+    # it calls whose result reaches the microsecond field (by name of the helper's own accumulator: any u32 place it multiplies by 10)
+    helpers = []
+    for _b, cs in f0.calls():
+        short = cs.callee.split("(")[0].rsplit("::", 1)[-1]
+        for name_, g_ in mir.fns.items():
+            if name_.startswith("parsing::") and name_.rsplit("::", 1)[-1] == short and g_ is not f0 and "{closure" not in name_ \
+                    and short not in ("parse_integer", "inc", "end", "parse_error", "unexpected_character_error") \
+                    and any(s_.op == "Mul" and len(s_.args) == 2 and s_.args[1] == "const 10_u32" for _bb, s_ in g_.all_stmts()) \
+                    and any(s_.op == "Lt" and len(s_.args) == 2 and s_.args[1] == "const 6_u8" for _bb, s_ in g_.all_stmts()) and g_ not in helpers:
+                helpers.append(g_)
     n_acc = n_pad = n_drain = 0
-    for scc in f.sccs():
+    for f in [f0] + helpers:
+      local_acc = {s_.args[0] for _bb, s_ in f.all_stmts() if s_.op == "Mul" and len(s_.args) == 2 and s_.args[1] == "const 10_u32"} if f is not f0 else set()
+
+      def is_us(s_):
+          return "microsecond" in _field(s_, f) or (s_.dest in local_acc) or any(a_ in local_acc for a_ in s_.args[:1] if s_.op == "Mul" and s_.dest in local_acc)
+      n_sites = 0
+      for _b, cs in (f0.calls() if f is not f0 else []):
+          if cs.callee.split("(")[0].rsplit("::", 1)[-1] == f.name.rsplit("::", 1)[-1]:
+              n_sites += 1
+      for scc in f.sccs():
         stm = [s for b in scc for s in f.blocks[b].stmts]
         bound6 = any(s.op == "Lt" and s.args[1] == "const 6_u8" for s in stm)
         mul10 = [s for s in stm if s.op == "Mul" and s.args[1] == "const 10_u32"]
-        add_us = [s for s in stm if s.op == "Add" and "microsecond" in _field(s, f)]
-        pad = [s for s in mul10 if "microsecond" in _field(s, f)]
+        add_us = [s for s in stm if s.op == "Add" and is_us(s)]
+        pad = [s for s in mul10 if is_us(s) and not add_us]
         if add_us and mul10:
             if bound6:
                 n_acc += 1
@@ -317,6 +336,7 @@ def _fraction(ctx, mir) -> None:
             else:
                 ctx.ob("FRACTION", "rs:parse_time/unbounded-pad", False,
                        "a loop pads microsecond by 10 without the `i < 6` bound", "rust/src/parsing.rs")
+    names = f0.names()
     ctx.ob("FRACTION", "rs:parse_time/accumulate<=6", n_acc >= 1 and n_acc == n_pad,
            f"{n_acc} digit-accumulation loops and {n_pad} zero-padding loops bounded by i < 6; each fraction site needs both",
            "rust/src/parsing.rs")
